@@ -3,12 +3,18 @@
 //! usage: vh_lsproto <cases.ndjson> <root-dir> [--results]
 //!
 //! Every input line is one run:
-//!   {"run": "<key>", "sched": bool, "steps": [step, ...]}
+//!   {"run": "<key>", "sched": bool, "split": bool, "steps": [step, ...]}
+//! split (sched): the wrapper task of ServerContext::task is kept parked at its final lock request
+//! (`cancellations`.M, after it has sent the response) until a "remove" step: the main loop handles the
+//! messages played in between while the answered id is still registered in the cancellation map.
 //! step:
 //!   {"op":"notif","method":M,"params":P}
 //!   {"op":"req","id":N,"method":M,"params":P,"hold":bool,"inject_panic":bool}
 //!   {"op":"resp","id":N}                 client response (null result) to a server request
-//!   {"op":"finish","id":N}               (sched) let the held task of request N run to completion
+//!   {"op":"respond","id":N}              (sched) let the held handler task of request N run to completion:
+//!                                        the wrapper task answers and (split) parks at `cancellations`
+//!   {"op":"remove","id":N}               (sched, split) let the parked wrapper task of N remove its entry
+//!   {"op":"finish","id":N}               (sched) respond + remove
 //!   {"op":"advance","ms":N}              advance virtual time
 //! Any JSON string containing "$ROOT" has it replaced by the file URI of <root-dir>.
 //!
@@ -16,6 +22,7 @@
 //!   {"ev":"reset","run":K}
 //!   {"ev":"csend","kind":"req"|"notif"|"resp","id":N?,"method":M?}      client -> server, as delivered
 //!   {"ev":"held","id":N,"ok":bool}                                        (sched) task of N parked
+//!   {"ev":"held_remove","id":N,"ok":bool}   (split) N answered, its wrapper task parked at `cancellations`
 //!   {"ev":"ssend","kind":"resp","id":N,"ok":bool,"code":C?,"null":bool,"result":R?}
 //!   {"ev":"ssend","kind":"notif"|"req","method":M,"id":N?}
 //!   {"ev":"panic","msg":S}
@@ -95,19 +102,69 @@ impl Out {
     }
 }
 
-/// (sched) step every parked task that is not held until none is left.
-async fn run_unheld(s: &mut Session, held: &BTreeSet<u64>) {
-    let mut guard = 0;
-    loop {
-        guard += 1;
-        if guard > 10_000 {
-            break;
+/// scheduling state of one run
+#[derive(Default)]
+struct Sched {
+    /// handler tasks kept parked at their first lock request
+    held: BTreeSet<u64>,
+    task_of: BTreeMap<i64, u64>,
+    /// split: wrapper tasks (parked at `cancellations` after they answered) are kept parked ...
+    split: bool,
+    wrappers: BTreeSet<u64>,
+    wrapper_of: BTreeMap<i64, u64>,
+    /// ... until they are freed by a "remove" step
+    freed: BTreeSet<u64>,
+}
+
+impl Sched {
+    fn blocked(&self, s: &Session, t: u64, lock: &str) -> bool {
+        self.held.contains(&t)
+            || (self.split && t != s.main_task && lock == "cancellations" && !self.freed.contains(&t))
+    }
+
+    /// step every parked task that is not kept parked until none is left
+    async fn run(&mut self, s: &mut Session) {
+        let mut guard = 0;
+        loop {
+            guard += 1;
+            if guard > 10_000 {
+                break;
+            }
+            let parked = s.parked();
+            let Some(t) = parked
+                .iter()
+                .find(|(t, (l, _))| !self.blocked(s, **t, l))
+                .map(|(t, _)| *t)
+            else {
+                break;
+            };
+            s.step(t).await;
         }
-        let parked = s.parked();
-        let Some(t) = parked.keys().find(|t| !held.contains(t)).cloned() else {
-            break;
-        };
-        s.step(t).await;
+    }
+
+    /// split: wrapper tasks that parked at `cancellations` since the last call; the first one belongs
+    /// to request `idn` (one request is answered per step), any other is not kept
+    fn adopt(&mut self, s: &Session, idn: Option<i64>) -> bool {
+        if !self.split {
+            return false;
+        }
+        let mut got = false;
+        for (t, (l, _)) in s.parked() {
+            if t == s.main_task || l != "cancellations" || self.wrappers.contains(&t) {
+                continue;
+            }
+            self.wrappers.insert(t);
+            match idn {
+                Some(i) if !got && !self.wrapper_of.contains_key(&i) => {
+                    self.wrapper_of.insert(i, t);
+                    got = true;
+                }
+                _ => {
+                    self.freed.insert(t);
+                }
+            }
+        }
+        got
     }
 }
 
@@ -123,8 +180,10 @@ async fn play(run: &Value, root: &PathBuf, out: &mut Out) {
     })
     .await;
     let mut from = s.outbox.len();
-    let mut held: BTreeSet<u64> = BTreeSet::new();
-    let mut task_of: BTreeMap<i64, u64> = BTreeMap::new();
+    let mut sc = Sched {
+        split: sched && run["split"].as_bool().unwrap_or(false),
+        ..Default::default()
+    };
     let empty = Vec::new();
     for st in run["steps"].as_array().unwrap_or(&empty) {
         let op = st["op"].as_str().unwrap_or("");
@@ -138,7 +197,7 @@ async fn play(run: &Value, root: &PathBuf, out: &mut Out) {
                 s.deliver(Message::Notification(Notification { method, params: p }))
                     .await;
                 if sched {
-                    run_unheld(&mut s, &held).await;
+                    sc.run(&mut s).await;
                 }
             }
             "req" => {
@@ -172,17 +231,17 @@ async fn play(run: &Value, root: &PathBuf, out: &mut Out) {
                     let newt: Vec<u64> = s
                         .new_tasks()
                         .into_iter()
-                        .filter(|t| *t != main && !held.contains(t))
+                        .filter(|t| *t != main && !sc.held.contains(t))
                         .filter(|t| parked_now.get(t).map(|(l, _)| l != "cancellations").unwrap_or(false))
                         .collect();
                     if hold || inject {
                         // the task(s) spawned for this request
                         let ok = !newt.is_empty();
                         for t in &newt {
-                            held.insert(*t);
+                            sc.held.insert(*t);
                         }
                         if let Some(t) = newt.first() {
-                            task_of.insert(idn, *t);
+                            sc.task_of.insert(idn, *t);
                         }
                         out.ev(json!({"ev":"held","id":idn,"ok":ok}));
                         if inject {
@@ -191,12 +250,18 @@ async fn play(run: &Value, root: &PathBuf, out: &mut Out) {
                             }
                             if !hold {
                                 for t in &newt {
-                                    held.remove(t);
+                                    sc.held.remove(t);
                                 }
                             }
                         }
                     }
-                    run_unheld(&mut s, &held).await;
+                    sc.run(&mut s).await;
+                    // a handler without a lock request has finished at once: its wrapper task has
+                    // answered and is parked at the cancellation map
+                    if sc.adopt(&s, Some(idn)) {
+                        from = out.flush(&s, from);
+                        out.ev(json!({"ev":"held_remove","id":idn,"ok":true}));
+                    }
                 }
             }
             "resp" => {
@@ -208,22 +273,35 @@ async fn play(run: &Value, root: &PathBuf, out: &mut Out) {
                 )))
                 .await;
                 if sched {
-                    run_unheld(&mut s, &held).await;
+                    sc.run(&mut s).await;
                 }
             }
-            "finish" => {
+            "respond" | "finish" | "remove" => {
                 let idn = st["id"].as_i64().unwrap_or(0);
-                if let Some(t) = task_of.get(&idn).cloned() {
-                    held.remove(&t);
+                if op != "remove"
+                    && let Some(t) = sc.task_of.get(&idn).cloned()
+                    && sc.held.remove(&t)
+                {
                     // tasks spawned by the request's task itself are not held either
-                    run_unheld(&mut s, &held).await;
+                    sc.run(&mut s).await;
+                    if sc.split {
+                        let ok = sc.adopt(&s, Some(idn));
+                        from = out.flush(&s, from);
+                        out.ev(json!({"ev":"held_remove","id":idn,"ok":ok}));
+                    }
+                }
+                if op != "respond" {
+                    if let Some(w) = sc.wrapper_of.get(&idn).cloned() {
+                        sc.freed.insert(w);
+                    }
+                    sc.run(&mut s).await;
                 }
             }
             "advance" => {
                 let ms = st["ms"].as_u64().unwrap_or(0);
                 s.advance_ms(ms).await;
                 if sched {
-                    run_unheld(&mut s, &held).await;
+                    sc.run(&mut s).await;
                 }
             }
             _ => {}
@@ -231,8 +309,9 @@ async fn play(run: &Value, root: &PathBuf, out: &mut Out) {
         from = out.flush(&s, from);
     }
     if sched {
-        held.clear();
-        run_unheld(&mut s, &held).await;
+        sc.held.clear();
+        sc.split = false;
+        sc.run(&mut s).await;
         s.free_run().await;
     }
     s.settle().await;
